@@ -135,11 +135,13 @@ package ro
 
 //@ func NewNotificationNext
 //@   props C04 C17
+//@   binds value
 //@   modular
 //@   ensures [kind-next] result.Kind == 0 && result.Value == value
 
 //@ func NewNotificationError
 //@   props C04 C17
+//@   binds err
 //@   modular
 //@   ensures [kind-error] result.Kind == 1 && result.Err == err
 
@@ -150,6 +152,7 @@ package ro
 
 //@ func processNotificationWithContext
 //@   props C17
+//@   binds ctx n onNext onError onComplete
 //@   maypanic
 //@   track callfn.*
 //@   ensures [next|C17] n.Kind == 0 ==> trace(callfn.onNext(ctx, n.Value)) && result == true
@@ -412,6 +415,7 @@ package ro
 //@ func FromChannel$1$1
 //@   note the reader goroutine of FromChannel
 //@   props C17 C08
+//@   binds in done destination ctx
 //@   note every wait of the reader is one blocking select over the input channel and the teardown's done channel: it is never parked on the input alone, nor does it poll
 //@   track destination.* loop.* chselect chpoll chrecv.ANY
 //@   ensures [ends-by-completion-or-done|C17,C14] trace(loop.L0, chselect(in, done)) || trace(loop.L0, chselect(in, done), destination.CompleteWithContext(ctx))
@@ -425,36 +429,42 @@ package ro
 //@ func ToChannel$1$1
 //@   note the subscribe function of ToChannel
 //@   props C17 C08
+//@   binds subscriberCtx destination size
 //@   track chmake destination.* spawn.*
 //@   ensures [one-channel-of-the-configured-capacity-handed-out-once|C17,C08] trace(chmake(size), spawn.ANY, destination.NextWithContext(subscriberCtx, _))
 
 //@ func ToChannel$1$1$2$1
 //@   note upstream Next
 //@   props C17 C08
+//@   binds value ch destination
 //@   track chsend.* chselect chpoll destination.* call.Once.Do
 //@   ensures [one-blocking-send-per-value|C17,C08] trace(chsend.ch(_, fields(0, value, _)))
 
 //@ func ToChannel$1$1$2$2
 //@   note upstream Error
 //@   props C17 C08
+//@   binds ctx err ch destination
 //@   track chsend.* chselect chpoll destination.* call.Once.Do
 //@   ensures [terminal-sent-then-closed-then-completed|C17,C08] trace(chsend.ch(_, fields(1, _, err)), call.Once.Do, destination.CompleteWithContext(ctx))
 
 //@ func ToChannel$1$1$2$3
 //@   note upstream Complete
 //@   props C17 C08
+//@   binds ctx ch destination
 //@   track chsend.* chselect chpoll destination.* call.Once.Do
 //@   ensures [terminal-sent-then-closed-then-completed|C17,C08] trace(chsend.ch(_, fields(2, _, _)), call.Once.Do, destination.CompleteWithContext(ctx))
 
 //@ func ToChannel$1$1$1$1
 //@   note the body run (once) by closeChan
 //@   props C17
+//@   binds ch
 //@   track chclose.*
 //@   ensures [closes-the-channel|C17] trace(chclose.ch)
 
 //@ func ToChannel$1$1$3
 //@   note the teardown
 //@   props C17 C03
+//@   binds subscriptions
 //@   track subscriptions.* call.Once.Do chclose.*
 //@   ensures [releases-upstream-then-closes-once|C17,C03] trace(subscriptions.Unsubscribe(), call.Once.Do)
 
@@ -465,6 +475,7 @@ package ro
 //@ func detachOn$1$1
 //@   note the subscribe function of detachOn
 //@   props C08
+//@   binds bufferSize
 //@   maypanic
 //@   inline processNotificationWithContext
 //@   track chmake
@@ -473,24 +484,28 @@ package ro
 //@ func detachOn$1$1$2$1
 //@   note upstream Next
 //@   props C08 C09
+//@   binds ctx value ch destination
 //@   track chsend.* chselect chpoll destination.* call.Once.Do
 //@   ensures [one-blocking-send-per-value|C08] trace(chsend.ch(_, fields(ctx, fields(0, value, _))))
 
 //@ func detachOn$1$1$2$2
 //@   note upstream Error
 //@   props C08 C09
+//@   binds ctx err ch destination
 //@   track chsend.* chselect chpoll destination.* call.Once.Do
 //@   ensures [terminal-queued-like-a-value-then-closed|C08] trace(chsend.ch(_, fields(ctx, fields(1, _, err))), call.Once.Do)
 
 //@ func detachOn$1$1$2$3
 //@   note upstream Complete
 //@   props C08 C09
+//@   binds ctx ch destination
 //@   track chsend.* chselect chpoll destination.* call.Once.Do
 //@   ensures [terminal-queued-like-a-value-then-closed|C08] trace(chsend.ch(_, fields(ctx, fields(2, _, _))), call.Once.Do)
 
 //@ func detachOn$1$1$3
 //@   note the consumer loop (produceDownstream)
 //@   props C08 C09
+//@   binds ch destination
 //@   maypanic
 //@   inline processNotificationWithContext
 //@   track chrecv.* destination.* loop.* spawn.*
@@ -684,6 +699,7 @@ package ro
 //@ func Delay$1$1$1
 //@   note consume: the timer callback releases the head of the queue (FIFO), or nothing when the teardown emptied it
 //@   props C16 C09
+//@   binds queue destination
 //@   maypanic
 //@   inline processNotificationWithObserverAndContext processNotificationWithContext
 //@   track destination.*
@@ -703,6 +719,7 @@ package ro
 //@ func Interval$1$1
 //@   note the ticking goroutine of Interval: value k is emitted on the k-th tick received, nothing is emitted without a tick
 //@   props C16 C09
+//@   binds destination ctx
 //@   track destination.* loop.* chselect chpoll chrecv.ANY
 //@   ensures [completes-when-told-to-stop|C16] trace(loop.L0, chselect, destination.CompleteWithContext(ctx))
 
@@ -833,6 +850,7 @@ package ro
 
 //@ func Iif$1
 //@   props C04
+//@   binds predicate source1 source2
 //@   maypanic
 //@   track callfn.*
 //@   ensures [asks-once] !panics ==> count(callfn.predicate) == 1
@@ -866,6 +884,7 @@ package ro
 //@ func RaceWith$1
 //@   note RaceWith() without competitors is the identity
 //@   props C05 C04
+//@   binds source
 //@   ensures [identity] result == source
 
 // ---------------------------------------------------------------------------
@@ -875,6 +894,7 @@ package ro
 //@ func zipInnerSubscription$3
 //@   note the completion callback of one zipped source
 //@   props C05
+//@   binds ctx values destination subscriptions
 //@   track destination.* subscriptions.*
 //@   ensures [a-drained-source-completes-the-output|C05] len(old(values)) == 0 ==> trace(destination.CompleteWithContext(ctx), subscriptions.Unsubscribe())
 //@   ensures [a-finished-source-with-queued-values-keeps-the-others-subscribed|C05] len(old(values)) > 0 ==> trace()
@@ -882,6 +902,7 @@ package ro
 //@ func zipInnerSubscription$2
 //@   note the error callback of one zipped source: the error ends the output at once and releases every source
 //@   props C05 C07
+//@   binds ctx err destination subscriptions
 //@   track destination.* subscriptions.*
 //@   ensures [error-ends-the-output-and-releases-the-others|C05] trace(destination.ErrorWithContext(ctx, err), subscriptions.Unsubscribe())
 
@@ -906,6 +927,7 @@ package ro
 
 //@ func CollectWithContext
 //@   props C06 C17
+//@   binds ctx obs
 //@   alias sub=obs.SubscribeWithContext()
 //@   track obs.*
 //@   ensures [returns-only-after-the-subscription-ended|C06] trace(obs.SubscribeWithContext(ctx, _), sub.Wait())
@@ -913,6 +935,7 @@ package ro
 //@ func ZipWith1$1$1$1
 //@   note onUpdate of Zip2 / ZipWith1: once every queue has a value the heads are popped and emitted as one tuple; the output then completes exactly when a finished source's queue is empty
 //@   props C05 C04
+//@   binds ctx valueA valueB destination completedA completedB
 //@   track destination.*
 //@   ensures [no-tuple-until-every-queue-has-a-value|C05] !(len(old(valueA)) > 0 && len(old(valueB)) > 0) ==> trace()
 //@   ensures [a-tuple-is-emitted-when-every-queue-has-a-value|C05] len(old(valueA)) > 0 && len(old(valueB)) > 0 ==> count(destination.NextWithContext) == 1 && arg(destination.NextWithContext, 0) == ctx
@@ -922,6 +945,7 @@ package ro
 //@ func ZipWith2$1$1$1
 //@   note onUpdate of Zip3 / ZipWith2: as ZipWith1, over 3 queues
 //@   props C05 C04
+//@   binds ctx valueA valueB valueC destination completedA completedB completedC
 //@   track destination.*
 //@   ensures [no-tuple-until-every-queue-has-a-value|C05] !(len(old(valueA)) > 0 && len(old(valueB)) > 0 && len(old(valueC)) > 0) ==> trace()
 //@   ensures [a-tuple-is-emitted-when-every-queue-has-a-value|C05] len(old(valueA)) > 0 && len(old(valueB)) > 0 && len(old(valueC)) > 0 ==> count(destination.NextWithContext) == 1 && arg(destination.NextWithContext, 0) == ctx
@@ -931,6 +955,7 @@ package ro
 //@ func ZipWith3$1$1$1
 //@   note onUpdate of Zip4 / ZipWith3: as ZipWith1, over 4 queues
 //@   props C05 C04
+//@   binds ctx valueA valueB valueC valueD destination completedA completedB completedC completedD
 //@   track destination.*
 //@   ensures [no-tuple-until-every-queue-has-a-value|C05] !(len(old(valueA)) > 0 && len(old(valueB)) > 0 && len(old(valueC)) > 0 && len(old(valueD)) > 0) ==> trace()
 //@   ensures [a-tuple-is-emitted-when-every-queue-has-a-value|C05] len(old(valueA)) > 0 && len(old(valueB)) > 0 && len(old(valueC)) > 0 && len(old(valueD)) > 0 ==> count(destination.NextWithContext) == 1 && arg(destination.NextWithContext, 0) == ctx
@@ -940,6 +965,7 @@ package ro
 //@ func ZipWith4$1$1$1
 //@   note onUpdate of Zip5 / ZipWith4: as ZipWith1, over 5 queues
 //@   props C05 C04
+//@   binds ctx valueA valueB valueC valueD valueE destination completedA completedB completedC completedD completedE
 //@   track destination.*
 //@   ensures [no-tuple-until-every-queue-has-a-value|C05] !(len(old(valueA)) > 0 && len(old(valueB)) > 0 && len(old(valueC)) > 0 && len(old(valueD)) > 0 && len(old(valueE)) > 0) ==> trace()
 //@   ensures [a-tuple-is-emitted-when-every-queue-has-a-value|C05] len(old(valueA)) > 0 && len(old(valueB)) > 0 && len(old(valueC)) > 0 && len(old(valueD)) > 0 && len(old(valueE)) > 0 ==> count(destination.NextWithContext) == 1 && arg(destination.NextWithContext, 0) == ctx
@@ -949,6 +975,7 @@ package ro
 //@ func ZipWith5$1$1$1
 //@   note onUpdate of Zip6 / ZipWith5: as ZipWith1, over 6 queues
 //@   props C05 C04
+//@   binds ctx valueA valueB valueC valueD valueE valueF destination completedA completedB completedC completedD completedE completedF
 //@   track destination.*
 //@   ensures [no-tuple-until-every-queue-has-a-value|C05] !(len(old(valueA)) > 0 && len(old(valueB)) > 0 && len(old(valueC)) > 0 && len(old(valueD)) > 0 && len(old(valueE)) > 0 && len(old(valueF)) > 0) ==> trace()
 //@   ensures [a-tuple-is-emitted-when-every-queue-has-a-value|C05] len(old(valueA)) > 0 && len(old(valueB)) > 0 && len(old(valueC)) > 0 && len(old(valueD)) > 0 && len(old(valueE)) > 0 && len(old(valueF)) > 0 ==> count(destination.NextWithContext) == 1 && arg(destination.NextWithContext, 0) == ctx
